@@ -665,6 +665,74 @@ def compare(res, lines, impl_out, ncases):
                 break
 
 
+def reentrant_verdicts(res, vals, vlist, first_pass_of):
+    """one validator object asked by two callers at once (two receivers sharing it, or two feeder threads): a second,
+    complete `is_valid(b)` runs exactly when the first caller touches a field of the validator — every field access of
+    the first call in turn is such a point — and the first call's verdict must still be the verdict of ITS datum.  The
+    fields are found by inspection and turned into properties that run the second call (same thread: no lock of the
+    validator is held by a caller that is merely reading its configuration)."""
+    light = [(lab, v) for lab, v in vals if not lab.startswith('deep_') and not lab.startswith('cyclic')]
+    for (vlabel, cls, valline, v, schema, types, subtype) in vlist:
+        acc = [(lab, val) for lab, val in light if first_pass_of(v, val) is True][:3]
+        rej = [(lab, val) for lab, val in light if first_pass_of(v, val) is False][:3]
+        if not acc or not rej:
+            continue
+        fields = list(vars(v))
+        store = {k: vars(v).pop(k) for k in fields}
+        state = {'n': 0, 'at': None, 'other': None, 'busy': False}
+
+        def touch():
+            if state['busy'] or state['at'] is None:
+                return
+            state['n'] += 1
+            if state['n'] == state['at']:
+                state['busy'] = True
+                try:
+                    impl_verdict(v, state['other'])
+                finally:
+                    state['busy'] = False
+        ns = {}
+        for k in fields:
+            def getter(self, k=k):
+                touch()
+                return store[k]
+
+            def setter(self, val, k=k):
+                store[k] = val
+                touch()
+            ns[k] = property(getter, setter)
+        orig_cls = v.__class__
+        v.__class__ = type(orig_cls.__name__ + 'Shared', (orig_cls,), ns)
+        try:
+            bad = None
+            for (la, a), (lb, b) in [(x, y) for x in acc for y in rej] + [(y, x) for x in acc for y in rej]:
+                want = a_alone = first_pass_of(v, a)
+                for at in range(1, 12):
+                    state.update(n=0, at=at, other=b)
+                    got = impl_verdict(v, a)
+                    state['at'] = None
+                    res.count('reentrant_verdicts')
+                    if got != want:
+                        bad = (la, lb, at, want, got)
+                        break
+                    if state['n'] < at:
+                        break               # the call has fewer field accesses than that
+                if bad:
+                    break
+            if bad:
+                la, lb, at, want, got = bad
+                res.violations.append(Violation(
+                    f'verdict-depends-on-other-caller:{cls}',
+                    f"{vlabel}.is_valid({la}) answers {want} on its own but {got} when another caller's is_valid({lb}) runs while the "
+                    f"first is at its field access #{at}: the verdict does not depend on the datum alone",
+                    {'kind': 'reentrant', 'validator': vlabel, 'a': la, 'b': lb, 'at': at}))
+                return
+        finally:
+            v.__class__ = orig_cls
+            vars(v).update(store)
+        res.add_case({'kind': 'reentrant', 'validator': vlabel}, nontrivial=True)
+
+
 def run(ctx: Ctx) -> Result:
     res = Result()
     only = None
@@ -684,6 +752,9 @@ def run(ctx: Ctx) -> Result:
                 res.count('corpus_cases')
     if only is None or only.get('kind') == 'verdict':
         verdict_cases(res, vals, vlist, lines, impl_out, only)
+    if only is None or only.get('kind') == 'reentrant':
+        reentrant_verdicts(res, vals, [e for e in vlist if only is None or e[0] == only.get('validator')],
+                           lambda v, x: impl_verdict(v, x))
     if only is None or only.get('kind') == 'gate':
         run_gate(res, ctx, vals, vlist, lines, impl_out, vseed, only)
     if only is None or only.get('kind') == 'generator':
